@@ -115,6 +115,11 @@ pub fn c15_states(ctx: &Ctx, thorough: bool) -> Vec<(String, StateSpec)> {
         ("other-data+foreign".into(), state(true, MetaSpec::OtherHash, Foreign)),
         ("meta-missing+complete".into(), state(true, MetaSpec::Absent, Complete)),
         ("meta-missing+foreign".into(), state(true, MetaSpec::Absent, Foreign)),
+        // an index that equals a complete one by every coarse measure (schema, number of documents,
+        // words) but holds the payloads of another edition of the data
+        ("meta-missing+same-shape".into(), state(true, MetaSpec::Absent, ForeignSameShape)),
+        ("other-data+same-shape".into(), state(true, MetaSpec::OtherHash, ForeignSameShape)),
+        ("other-version+same-shape".into(), state(true, MetaSpec::OtherVersionOtherHash, ForeignSameShape)),
         ("index-missing+current".into(), state(true, MetaSpec::Current, Absent)),
         ("index-missing+other-data".into(), state(true, MetaSpec::OtherHash, Absent)),
         ("index-missing+other-version".into(), state(true, MetaSpec::OtherVersion, Absent)),
@@ -124,6 +129,9 @@ pub fn c15_states(ctx: &Ctx, thorough: bool) -> Vec<(String, StateSpec)> {
         v.push(("other-data+complete".into(), state(true, MetaSpec::OtherHash, Complete)));
         v.push(("near-version+foreign".into(), state(true, MetaSpec::NearVersion, Foreign)));
         v.push(("near-version+complete".into(), state(true, MetaSpec::NearVersion, Complete)));
+        v.push(("near-version+same-shape".into(), state(true, MetaSpec::NearVersion, ForeignSameShape)));
+        v.push(("meta-garbage(text)+same-shape".into(), state(true, MetaSpec::Text { text: "garbage".into() }, ForeignSameShape)));
+        v.push(("meta-torn(half)+same-shape".into(), state(true, MetaSpec::CurrentPrefix { bytes: len / 2 }, ForeignSameShape)));
         for b in 0..len {
             v.push((format!("meta-torn({b})+foreign"), state(true, MetaSpec::CurrentPrefix { bytes: b }, Foreign)));
             v.push((format!("meta-torn({b})+complete"), state(true, MetaSpec::CurrentPrefix { bytes: b }, Complete)));
@@ -845,7 +853,49 @@ pub fn phrase_pool(ctx: &Ctx) -> PhrasePool {
     PhrasePool { own, ambiguous, missing: vec!["zzz qqq".into(), "zzzfake quux".into(), "xqzj".into()] }
 }
 
+/// Another spelling of a fact's words by letter case: one word or all of them in capitals or
+/// capitalised. Half of the time a phrase is looked for that has a word beginning like one of the
+/// search engine's operators ("orbit", "andorra", "nothing"), and that word is the one re-cased.
+fn recased(pool: &PhrasePool, rng: &mut Rng) -> String {
+    let lookalike = |w: &str| {
+        let l = w.to_lowercase();
+        (l.starts_with("or") && l.len() > 2) || (l.starts_with("and") && l.len() > 3) || (l.starts_with("not") && l.len() > 3)
+    };
+    let mut p = rng.pick(&pool.own).clone();
+    if rng.chance(1, 2) {
+        for _ in 0..24 {
+            if p.split_whitespace().any(lookalike) {
+                break;
+            }
+            p = rng.pick(&pool.own).clone();
+        }
+    }
+    let words: Vec<&str> = p.split_whitespace().collect();
+    let target = match words.iter().position(|w| lookalike(w)) {
+        Some(i) if rng.chance(3, 4) => Some(i),
+        _ if rng.chance(1, 3) => None, // all words
+        _ => Some(rng.below(words.len().max(1))),
+    };
+    let style = rng.below(3);
+    let recase = |w: &str| -> String {
+        match style {
+            0 | 1 => w.to_uppercase(),
+            _ => {
+                let mut c = w.chars();
+                match c.next() {
+                    Some(f) => f.to_uppercase().collect::<String>() + c.as_str(),
+                    None => String::new(),
+                }
+            }
+        }
+    };
+    words.iter().enumerate().map(|(i, w)| if target.is_none() || target == Some(i) { recase(w) } else { w.to_string() }).collect::<Vec<_>>().join(" ")
+}
+
 fn phrase(pool: &PhrasePool, rng: &mut Rng) -> String {
+    if rng.chance(1, 10) {
+        return recased(pool, rng);
+    }
     if rng.chance(1, 8) {
         // an underspecified phrase: a fact's words with one of them left out ("population dominican")
         let p = rng.pick(&pool.own).clone();
@@ -1195,6 +1245,10 @@ pub fn c18_threads(ctx: &Ctx, pool: &PhrasePool, rng: &mut Rng, seed: u64) -> Hi
 // ---------------------------------------------------------------------------------------------
 // C19
 
+fn num_pow(b: usize, n: usize) -> u128 {
+    (0..n).fold(1u128, |acc, _| acc * b as u128)
+}
+
 pub fn c19_query(pool: &PhrasePool, rng: &mut Rng) -> String {
     let int = |rng: &mut Rng| -> String {
         match rng.below(5) {
@@ -1243,7 +1297,31 @@ pub fn c19_query(pool: &PhrasePool, rng: &mut Rng) -> String {
             _ => format!("1 / {}", rng.range(2, 13)),
         }
     };
-    match rng.below(37) {
+    match rng.below(40) {
+        37 | 38 | 39 => {
+            // signed values: negative results, negative bases and exponents, results that are
+            // exactly one, minus one or zero only after the arithmetic, with and without units
+            let u = if rng.chance(1, 2) { String::new() } else { format!(" {}", *rng.pick(&["m", "decade", "ton", "s", "acre", "btu", "kg"])) };
+            let a = rng.range(1, 12);
+            let b = rng.range(2, 13);
+            let n = rng.range(1, 7);
+            match rng.below(14) {
+                0 => format!("-{a}{u}"),
+                1 => format!("-{a} / {b}{u}"),
+                2 => format!("-{a}^-{n}"),
+                3 => format!("{a}^-{n}"),
+                4 => format!("-{a}^-{n} to m"),
+                5 => format!("(0 - {a})^{n}{u}"),
+                6 => format!("{a}{u} - {}{u}", a + 1),
+                7 => format!("{a}{u} - {a}{u}"),
+                8 => format!("-{a}^{n}{u}"),
+                9 => format!("{}^-{n} * {}{u}", b, num_pow(b, n)),
+                10 => format!("0 - {}^-{n} * {}{u}", b, num_pow(b, n)),
+                11 => format!("-{a}/{b}{u} * {b}/{a}"),
+                12 => format!("{a} / -{b}{u}"),
+                _ => format!("-{}.{}{u}", rng.range(0, 99), rng.range(0, 999)),
+            }
+        }
         20 | 21 => format!("{} {}", *rng.pick(&["1", "0.5", "0.25", "0.125", "0.2", "2", "1.0", "10", "0.1", "1.5", "0.01", "3"]), plural_unit(rng)),
         22 => format!("{} {} to {}", *rng.pick(&["1", "10", "100", "5", "0.5"]), plural_unit(rng), plural_unit(rng)),
         23 => format!("({})({})", small(rng), small(rng)),
@@ -1359,7 +1437,24 @@ pub fn c19_random(ctx: &Ctx, pool: &PhrasePool, rng: &mut Rng, seed: u64) -> His
     let n = rng.range(2, 4);
     let mut queries = Vec::new();
     for _ in 0..n {
-        queries.push((c19_query(pool, rng), rng.chance(1, 2), rng.chance(1, 4)));
+        let mut q = c19_query(pool, rng);
+        if rng.chance(1, 6) {
+            // blanks at the front, at the end or doubled inside: passed as separate words these are
+            // empty command-line arguments (`any "" 1m`), which the program joins like any other
+            match rng.below(4) {
+                0 => q = format!(" {q}"),
+                1 => q = format!("  {q}"),
+                2 => q = format!("{q} "),
+                _ => {
+                    if let Some(at) = q.find(' ') {
+                        q.insert(at, ' ');
+                    } else {
+                        q = format!(" {q} ");
+                    }
+                }
+            }
+        }
+        queries.push((q, rng.chance(1, 2), rng.chance(1, 4)));
     }
     // the first call performs whatever recovery the directory needs
     let (q0, e0, _) = queries[0].clone();
@@ -1388,7 +1483,8 @@ pub fn c19_random(ctx: &Ctx, pool: &PhrasePool, rng: &mut Rng, seed: u64) -> His
             env.push(("TERM".into(), rng.pick(&["xterm-256color", "screen", "linux"]).to_string()));
             env.push(("NO_COLOR".into(), "<unset>".into()));
         }
-        steps.push(Step::Cli { query: q.clone(), exact: *exact, describe: *describe, env, split: rng.chance(1, 3), inject, tty });
+        let odd_blanks = q.starts_with(' ') || q.ends_with(' ') || q.contains("  ");
+        steps.push(Step::Cli { query: q.clone(), exact: *exact, describe: *describe, env, split: if odd_blanks { rng.chance(2, 3) } else { rng.chance(1, 3) }, inject, tty });
     }
     let texts: Vec<String> = queries.iter().map(|q| q.0.clone()).collect();
     steps.push(Step::Start {
